@@ -396,11 +396,11 @@ def run():
     for why, cnt in hook_missing.items():
         ck.violation("%s: %d trace(s) could not be replayed -- the Lowerer machine was NOT compared with the code" % (why, cnt), {"reason": why, "programs": cnt}, no_input=True)
     trace_ok = 0
-    if cases and coq_ok:
+    if coq_ok:
         try:
             # both verdicts of one trace in one expression (the term is parsed once).  The frames of OEndTable / OEndInline are
             # computed by the machine from the lineage (push_select_m) and compared with what push_select returned (BFrame)
-            both = coq_eval(c16_trace.COQ_HEADER, ["(let l := %s in let q := %s in (replay_l_verdict false l q, replay_l_verdict true l q))" % (t, qc) for _, t, qc, _, _ in cases])
+            both = coq_eval(c16_trace.COQ_HEADER, ["(let l := %s in let q := %s in (replay_l_verdict false l q, replay_l_verdict true l q))" % (t, qc) for _, t, qc, _, _ in cases]) if cases else []
             vals = [b[0] if isinstance(b, tuple) else None for b in both]
             strict = dict((c[0], b[1]) for c, b in zip(cases, both) if isinstance(b, tuple))
         except RuntimeError as ex:
